@@ -386,9 +386,19 @@ Definition msg_ok25 (m : msg) : Prop := plain17 sc m = true /\ m_eob m = true.
 Definition call_ok (c : call) : Prop :=
   match c with
   | CSend m custom noinc => custom = 0 /\ noinc = false /\ msg_ok25 m
+  | CSendRef m custom noinc => custom = 0 /\ noinc = false /\ msg_ok25 m
   | CBatch l => Forall msg_ok25 l
   end.
 Definition progs_ok (progs : list (list call)) : Prop := Forall (Forall call_ok) progs.
+(* pm_pipeline: the by-reference overload throws there; the programs of the pipelined theorems do not use it *)
+Definition no_ref (c : call) : Prop := match c with CSendRef _ _ _ => False | _ => True end.
+Definition call_okp (c : call) : Prop := call_ok c /\ no_ref c.
+Definition progs_okp (progs : list (list call)) : Prop := Forall (Forall call_okp) progs.
+Lemma progs_okp_ok : forall progs, progs_okp progs -> progs_ok progs.
+Proof.
+  intros progs H. unfold progs_okp, progs_ok in *. eapply Forall_impl; [|exact H]. intros p HP.
+  eapply Forall_impl; [|exact HP]. intros c [A _]. exact A.
+Qed.
 
 Lemma batch_ok : forall l, Forall msg_ok25 l ->
   Forall (fun m => plain17 sc m = true) (batch_msgs l) /\
@@ -472,7 +482,16 @@ Proof.
   destruct (nth_error (t_threads c) t) as [[[|cl rest] rets]|] eqn:E; try exact I.
   destruct (ti_thr _ _ I t _ E) as (p & EP & PM & CO & RT). cbn [tt_prog] in CO.
   inversion CO as [|? ? OK CO']; subst.
-  destruct cl as [m custom noinc|l].
+  destruct cl as [m custom noinc|m custom noinc|l].
+  - destruct OK as (-> & -> & [P EB]).
+    unfold send. cbn [N.eqb prep_send].
+    destruct (seq_run (t_sess c) [m]) as [[n s'] evs] eqn:ER.
+    destruct (tinv_cs progs c t _ rest rets [m] n s' evs I E) as [NR I']; try assumption.
+    + constructor; [exact P|constructor].
+    + intros _. exact EB.
+    + cbn [map call_msgs]. rewrite (norm_id m EB). reflexivity.
+    + cbn [call_ret call_msgs length] in NR. subst n.
+      rewrite (seq_run_single _ _ _ _ ER). exact I'.
   - destruct OK as (-> & -> & [P EB]).
     unfold send. cbn [N.eqb prep_send].
     destruct (seq_run (t_sess c) [m]) as [[n s'] evs] eqn:ER.
@@ -510,14 +529,14 @@ Record pinv (progs : list (list call)) (c : pcfg) : Prop := {
   pi_thr : forall t th, nth_error (p_threads c) t = Some th ->
     exists p, nth_error progs t = Some p /\
               prog_msgs p = (map norm (sent_by t (p_pushed c)) ++ pc_rest (pt_pc th) ++ prog_msgs (pt_prog th))%list /\
-              Forall call_ok (pt_prog th) /\ Forall msg_ok25 (pc_rest (pt_pc th));
+              Forall call_okp (pt_prog th) /\ Forall msg_ok25 (pc_rest (pt_pc th));
   (* unless some thread is in the middle of a batch, the last message pushed closes a batch *)
   pi_last : (forall t th, nth_error (p_threads c) t = Some th -> pc_rest (pt_pc th) = []) ->
             map snd (p_pushed c) = [] \/ m_eob (last (map snd (p_pushed c)) (new_msg [])) = true;
   pi_tid : Forall (fun x : nat * msg => (fst x < length progs)%nat) (p_pushed c)
 }.
 
-Lemma pinv_init : forall progs, good s0 -> s_batch s0 = [] -> progs_ok progs -> pinv progs (pinit s0 progs).
+Lemma pinv_init : forall progs, good s0 -> s_batch s0 = [] -> progs_okp progs -> pinv progs (pinit s0 progs).
 Proof.
   intros progs G B PO. constructor; cbn [pinit p_sess p_wire p_threads p_queue p_pushed p_popped map app].
   - exists [], []. split; [apply sinv_init; assumption|reflexivity].
@@ -527,7 +546,7 @@ Proof.
   - intros t th E. rewrite nth_error_map in E. destruct (nth_error progs t) as [p|] eqn:EP; [|discriminate].
     cbn in E. inversion E; subst. exists p. cbn [pt_prog pt_pc pc_rest sent_by filter map app].
     split; [reflexivity|]. split; [reflexivity|]. split; [|constructor].
-    unfold progs_ok in PO. rewrite Forall_forall in PO. apply PO. eapply nth_error_In. exact EP.
+    unfold progs_okp in PO. rewrite Forall_forall in PO. apply PO. eapply nth_error_In. exact EP.
   - intros _. left. reflexivity.
   - constructor.
 Qed.
@@ -540,7 +559,7 @@ Lemma pinv_push : forall progs c t th th' q,
   pinv progs c -> nth_error (p_threads c) t = Some th ->
   plain17 sc q = true ->
   (pc_rest (pt_pc th) ++ prog_msgs (pt_prog th) = norm q :: pc_rest (pt_pc th') ++ prog_msgs (pt_prog th'))%list ->
-  Forall call_ok (pt_prog th') -> Forall msg_ok25 (pc_rest (pt_pc th')) ->
+  Forall call_okp (pt_prog th') -> Forall msg_ok25 (pc_rest (pt_pc th')) ->
   (pc_rest (pt_pc th') = [] -> m_eob q = true) ->
   pinv progs (with_thread (push c t q) t th').
 Proof.
@@ -571,7 +590,7 @@ Qed.
 Lemma pinv_move : forall progs c t th th',
   pinv progs c -> nth_error (p_threads c) t = Some th ->
   (pc_rest (pt_pc th) ++ prog_msgs (pt_prog th) = pc_rest (pt_pc th') ++ prog_msgs (pt_prog th'))%list ->
-  Forall call_ok (pt_prog th') -> Forall msg_ok25 (pc_rest (pt_pc th')) ->
+  Forall call_okp (pt_prog th') -> Forall msg_ok25 (pc_rest (pt_pc th')) ->
   (pc_rest (pt_pc th') = [] -> pc_rest (pt_pc th) = []) ->
   pinv progs (with_thread c t th').
 Proof.
@@ -598,15 +617,16 @@ Proof.
   destruct (pi_thr _ _ I t _ E) as (p & EP & PM & CO & RO). cbn [pt_prog pt_pc] in CO, RO.
   destruct pc as [|[|m r] cnt].
   - (* between calls *)
-    destruct prog as [|[m custom noinc|l] rest]; [exact I| |].
-    + inversion CO as [|? ? OK CO']; subst. cbn [call_ok] in OK. destruct OK as (-> & -> & [P EB]).
+    destruct prog as [|[m custom noinc|m custom noinc|l] rest]; [exact I| | |].
+    + inversion CO as [|? ? [OK _] CO']; subst. cbn [call_ok] in OK. destruct OK as (-> & -> & [P EB]).
       apply (pinv_push progs c t _ _ _ I E); cbn [pt_pc pt_prog pc_rest prog_msgs flat_map call_msgs app prep_send N.eqb].
       * exact P.
       * rewrite (norm_id m EB). reflexivity.
       * exact CO'.
       * constructor.
       * intros _. exact EB.
-    + inversion CO as [|? ? OK CO']; subst. cbn [call_ok] in OK.
+    + inversion CO as [|? ? [_ NR] CO']. destruct NR.
+    + inversion CO as [|? ? [OK _] CO']; subst. cbn [call_ok] in OK.
       destruct l as [|m1 [|m2 l']].
       * apply (pinv_move progs c t _ _ I E); cbn [pt_pc pt_prog pc_rest prog_msgs flat_map call_msgs app].
         -- reflexivity.
@@ -659,7 +679,7 @@ Qed.
 Lemma pstep_inv : forall progs c a, pinv progs c -> pinv progs (pstep sc now c a).
 Proof. intros progs c [|t] I; [apply writer_step_inv|apply app_step_inv]; exact I. Qed.
 
-Theorem pinv_run : forall progs sched, good s0 -> s_batch s0 = [] -> progs_ok progs ->
+Theorem pinv_run : forall progs sched, good s0 -> s_batch s0 = [] -> progs_okp progs ->
   pinv progs (prun sc now sched (pinit s0 progs)).
 Proof.
   intros progs sched G B PO. unfold prun.
@@ -699,7 +719,7 @@ Proof.
   unfold pt_done in Q1. destruct (pt_prog th); [|discriminate]. destruct (pt_pc th); [split; reflexivity|discriminate].
 Qed.
 
-Theorem c25_pipelined_lemma : forall progs sched, good s0 -> s_batch s0 = [] -> progs_ok progs ->
+Theorem c25_pipelined_lemma : forall progs sched, good s0 -> s_batch s0 = [] -> progs_okp progs ->
   let c := prun sc now sched (pinit s0 progs) in
   (* what the writer has popped is a prefix of what has been pushed: wire order = queue order *)
   map snd (p_pushed c) = (p_popped c ++ p_queue c)%list /\
